@@ -38,7 +38,8 @@ def relocation(tool, params, files, rng_times, same_length):
         for f in sorted(fs):
             t = next(rng_times)
             os.utime(os.path.join(r, f), (t, t))
-    rc2, _ = E.generate(tool, dst, db2, params + ['--ecc_algo', '3'])
+    with E.shuffled_listing(next(rng_times)):          # the copy is listed in an adversarial (seeded random) directory order
+        rc2, _ = E.generate(tool, dst, db2, params + ['--ecc_algo', '3'])
     a = open('ecc3.db', 'rb').read() if os.path.exists('ecc3.db') else b''
     b = open(db2, 'rb').read() if os.path.exists(db2) else b''
     ia = open('ecc3.db.idx', 'rb').read() if os.path.exists('ecc3.db.idx') else b''
@@ -95,6 +96,32 @@ def codec_level(ctx):
         if isinstance(ps[3], bytes) and ps[3] != unhx(o):
             ctx.disagree(case, o, ps[3].hex(), what='model parity != codec 3 parity')
     ctx.count('codec_level_messages', len(cases))
+    # table-state robustness: codec 3 used, then the parameter-detection helper of eccman (which re-initialises the shared
+    # reedsolo tables on its own), then a NEW codec 3 object: its parity must still be the shared one
+    import pyFileFixity.lib.eccman as EM
+    for n, k, m in ((20, 11, b'hello world'), (12, 5, b'\x01\x02\x03\x04\x05'), (255, 223, bytes(range(200)))):
+        try:
+            a = EM.ECCMan(n, k, algo=3); p_before = bytes(a.encode(m))
+            with R.quiet():
+                EM.detect_reedsolomon_parameters(b'hello world', b'hello world' + bytes(9), gen_list=[2])
+            b2 = EM.ECCMan(n, k, algo=3); p_after = bytes(b2.encode(m))
+            p1 = bytes(EM.ECCMan(n, k, algo=1).encode(m))
+            with R.quiet():
+                ok_check = bool(b2.check(m, p1))
+        except Exception as ex:
+            p_before = p_after = p1 = ('EXC', repr(ex)); ok_check = False
+        R._cache['fam'] = None; R._cache['objs'].clear()
+        model = unhx(ctx.model.run(['enc 3 %d %d 0 %s' % (n, k, hx(m))])[0])
+        ctx.evaluations += 1
+        case = {'level': 'codec-tables', 'n': n, 'k': k, 'm': m.hex()}
+        if not (p_before == p_after == p1) or not ok_check:
+            ctx.fail(case, {'parity_before': p_before.hex() if isinstance(p_before, bytes) else p_before,
+                            'parity_after_detect_helper': p_after.hex() if isinstance(p_after, bytes) else p_after,
+                            'codec1': p1.hex() if isinstance(p1, bytes) else p1, 'new_codec3_accepts_codec1_parity': ok_check})
+        else:
+            ctx.traces += 1
+        if isinstance(p_after, bytes) and p_after != model:
+            ctx.disagree(case, model.hex(), p_after.hex(), what='model parity != codec 3 parity after the detection helper ran')
 
 
 def trees(ctx):
@@ -102,7 +129,9 @@ def trees(ctx):
     def rb(n): return bytes(rng.randrange(256) for _ in range(n))
     t = [{'a.txt': rb(300), 'sub/b.bin': rb(1), 'sub/deep/c': b'', 'z\xe9.dat': rb(1500)},
          {'x': rb(64), 'y/y': rb(65), 'y/z z': rb(1024)},
-         {'only.bin': rb(2000)}]
+         {'only.bin': rb(2000)},
+         # folders holding only sub-folders, several siblings: the walk order must not depend on the listing order
+         {'p/2019/a.jpg': rb(120), 'p/2020/b.jpg': rb(130), 'p/2018/c.jpg': rb(140), 'p/2021/x/y.jpg': rb(10), 'q/r/s/t': rb(70), 'q/a/u': rb(71)}]
     if ctx.tier == 'thorough':
         for _ in range(6):
             t.append({('d%d/' % rng.randrange(3)) * rng.randrange(0, 3) + 'f%d' % i: rb(rng.choice([0, 1, 63, 64, 65, 500, 1025])) for i in range(rng.randrange(1, 5))})
@@ -180,6 +209,15 @@ def run(ctx):
 
 
 def replay_case(ctx, case):
+    if case.get('level') == 'codec-tables':
+        import pyFileFixity.lib.eccman as EM
+        n, k, m = case['n'], case['k'], bytes.fromhex(case['m'])
+        a = EM.ECCMan(n, k, algo=3); pb = bytes(a.encode(m))
+        with R.quiet():
+            EM.detect_reedsolomon_parameters(b'hello world', b'hello world' + bytes(9), gen_list=[2])
+        pa = bytes(EM.ECCMan(n, k, algo=3).encode(m)); p1 = bytes(EM.ECCMan(n, k, algo=1).encode(m))
+        R._cache['fam'] = None; R._cache['objs'].clear()
+        return {'holds': pb == pa == p1, 'before': pb.hex(), 'after': pa.hex(), 'codec1': p1.hex()}
     if case.get('level') == 'codec':
         n, sk, kc, m = case['n'], case['selfk'], case['k'], bytes.fromhex(case['m'])
         ps = [bytes(R.codec(a, n, sk).encode(m, k=kc or None)) for a in (1, 2, 3)]
